@@ -234,9 +234,14 @@ class Recorder:
                 cur["pre"] = rec.snap(s)
                 raise
             cur["pre"] = rec.snap(s)
+            import c01
+            cur["oracle_start"] = len(c01.CALLS)
 
         def loss(s):
             cur = rec.steps[-1]
+            import c01
+            if "oracle_start" in cur:
+                cur["oracle"] = list(c01.CALLS[cur["oracle_start"]:])
             cur["post"] = rec.snap(s)
             rec.o_loss(s)
             cur["loss"] = rec.snap(s)
